@@ -11,6 +11,7 @@ CONFIG = {
     "level": "proof",
     "n": {"quick": 1600, "thorough": 20000},
     "shard": 300,
+    "bytes_keys": ["stream", "buf"],
     "rule": "designed cases (every special length x every dispatch kind, every type byte 0..45 with empty payload and with EOF) "
             "then seeded generation: ReadLV streams (header from special/ random/ small sizes, payload exact/short/long, truncated header), "
             "WriteTLV/ReadTLV values, and multi-frame streams fed to the real Service.handleConn over loopback with a real empty tsdb.Store; "
